@@ -53,7 +53,7 @@ func compileCLI(text string, langs []string, withWord bool) (map[string]map[stri
 	for _, l := range langs {
 		args = append(args, cli.Flags[l], filepath.Join(dir, "out_"+l))
 	}
-	r := cli.Run(dir, 60*time.Second, nil, nil, cli.Bin(), args...)
+	r := cli.Run(dir, 60*time.Second, nil, nil, cli.Bin(), cli.Respell(args, text)...)
 	trees := map[string]map[string][]byte{}
 	for _, l := range langs {
 		trees[l] = cli.ReadTree(filepath.Join(dir, "out_"+l))
@@ -172,7 +172,7 @@ func compileShared(text string, langs []string) (map[string][]byte, cli.Result) 
 	for _, l := range langs {
 		args = append(args, cli.Flags[l], filepath.Join(dir, "all"))
 	}
-	r := cli.Run(dir, 60*time.Second, nil, nil, cli.Bin(), args...)
+	r := cli.Run(dir, 60*time.Second, nil, nil, cli.Bin(), cli.Respell(args, text)...)
 	return cli.ReadTree(filepath.Join(dir, "all")), r
 }
 
@@ -356,7 +356,7 @@ func evalC14(k c14Case) []pbt.Violation {
 				want[n] = b
 			}
 		}
-		r := cli.Run(dir, 60*time.Second, nil, nil, cli.Bin(), args...)
+		r := cli.Run(dir, 60*time.Second, nil, nil, cli.Bin(), cli.Respell(args, k.Text)...)
 		if r.Exit != 0 {
 			return []pbt.Violation{{External: true, Signature: "cli-fails-where-library-succeeds", Detail: fmt.Sprintf("shared directory, subset %v exit %d: %s", k.Subset, r.Exit, clip(string(r.Stdout), 300))}}
 		}
